@@ -152,6 +152,7 @@ func runC16(p *Program, r *Report) {
 	hdrCell := e.newCell("header", hdrT)
 	st.mem[hdrCell] = e.zeroVal(hdrT)
 
+	e.PruneByFacts = true
 	outs := e.Run(readHeader, []Val{&Ptr{Cell: prCell}, &Ptr{Cell: hdrCell}}, st)
 	var succ []Outcome
 	nFail, badFail := 0, ""
@@ -163,6 +164,8 @@ func runC16(p *Program, r *Report) {
 				succ = append(succ, o)
 			} else if ev != nil && !ev.IsNil {
 				nFail++
+			} else if op, isO := o.Ret.(*Opaque); isO && op.Key != "nil" && (strings.Contains(op.Key, "io.EOF") || strings.Contains(op.Key, "io.ErrUnexpectedEOF")) {
+				nFail++ // a sentinel error variable is a non-nil error
 			} else {
 				badFail = fmt.Sprintf("a path returns %s at %s", valKey(o.Ret), p.Pos(o.Pos))
 			}
@@ -319,7 +322,7 @@ func runC16(p *Program, r *Report) {
 	r.Check(isC && tc == 128, rule, "consumed 128 bytes", pos, "the success path consumes exactly 128 bytes (tag count is then read at offset 128)", fmt.Sprintf("the success path consumes %s bytes; the ICC header is 128 bytes, so every later field would be read at the wrong offset", total.Key()))
 
 	// failure paths
-	r.Check(badFail == "" && nFail >= 30, rule, "failure paths return an error", pos, fmt.Sprintf("all %d other paths (a failed read at each of the read sites, or a wrong signature) return a non-nil error", nFail), "failure path does not return a non-nil error: "+badFail+fmt.Sprintf(" (%d failing paths)", nFail))
+	r.Check(badFail == "" && nFail >= 2, rule, "failure paths return an error", pos, fmt.Sprintf("all %d other paths (a failed read at each of the read sites, or a wrong signature) return a non-nil error", nFail), "failure path does not return a non-nil error: "+badFail+fmt.Sprintf(" (%d failing paths)", nFail))
 
 	// reserved bytes 10,11 and 100..127 feed no field
 	used := map[string]bool{}
